@@ -119,6 +119,13 @@ CLAIMED["C18"] = {
     "technique": "contract-based deductive verification: spec equality with If-folded max/min, uninterpreted log with congruence normal form, modular plumbing contracts with callee stubs",
 }
 
+CLAIMED["C14"] = {
+    "text": "Frame and functional-dependence contracts on the real ReceptorEstimator, executed from an ARBITRARY well-formed symbolic state (one fresh symbol per registered field, A tied to filters/sources by the invariant, plus a planted non-view attribute): each of 16 queries writes no attribute, leaves every attribute element-wise identical, reads view attributes only (a cache or stale copy would be a non-view read) and leaves caller arrays untouched; each of 13 mutator variants writes exactly its declared fields with values that are functions of its arguments and the view (whole-view postcondition: everything else identical; add/replace variants of both adaptations; register_targets stores a copy); every ordered pair (thorough: a third of all triples) of 8 mutators from an arbitrary state ends field by field in the state a stateless last-writer reference model predicts.",
+    "design_ref": "DESIGN.md section 6 C14",
+    "note": A_COMMON + " Heavy callees (fitting / gamut / sampling routines) are recording stubs here; that their answers are functions of the arguments handed over is what the dispatch contracts of C03-C13 establish. Histories are exhaustive to length 2 (quick) / sampled at length 3 (thorough); longer histories follow by induction from the frame + mutator contracts (argued in DESIGN.md, not machine-checked).",
+    "technique": "contract-based deductive verification: frame conditions and whole-view postconditions on every method from an arbitrary symbolic state, attribute read/write tracking, pairwise mutator induction step",
+}
+
 NOT_APPLICABLE = {}
 
 FIX_COMMITS = ["b2d156a (np.trapz -> trapezoid)", "1caec1a (negative fit targets no longer declared positive cvxpy parameters)", "f3b37fa (batched_iteration bs > n)", "b98cd56 (poisson baseline tiling)", "d30d941 (minimize .copy())", "35d91a0 (minimize reshape order)", "b90b02d (minimize padded slack)", "7019c2d (excitation baseline)", "3901923 (excitation per-sample)", "b370f4e (adaptive default solver)", "cef6319 (gamut apex = capture at lb)", "f990a92 (hull_dist_scaling forwards relative)", "3b5a1c6 (dichromat chromatic membership)", "be7bf4f (math.factorial in sample_in_hull)"]
